@@ -324,8 +324,23 @@ def layout():
         st.booleans(), st.booleans(), st.booleans(), st.integers(0, 2).map(lambda i: i == 0))
 
 
+def replant_ops():
+    """Focused history on ONE storage object: a key is used successfully, then (done by the environment) its name becomes a symlink,
+    then the same key is used again - a storage object that remembers what it found out about a key the first time must not act on
+    that memory. Random operations may come before, between and after."""
+    first = st.one_of(st.builds(lambda: {'op': 'exists'}), st.builds(lambda f, m: {'op': 'file_handle', 'filename': f, 'mode': m},
+                                                                      st.sampled_from(['f.txt', 'new.bin']), st.sampled_from(['rb', 'wb', 'ab'])))
+    again = st.one_of(st.builds(lambda f, m: {'op': 'file_handle', 'filename': f, 'mode': m},
+                                st.sampled_from(['new.bin', 'inner.txt', 'f.txt', 'metadata.json']), st.sampled_from(['wb', 'rb', 'ab', 'w', 'r', 'x', 'rb+'])),
+                      st.builds(lambda: {'op': 'delete'}), st.builds(lambda: {'op': 'exists'}))
+    return st.builds(lambda k, a, o1, o2, o3, pre, mid, post: pre + [{**o1, 'key': k}] + mid + [{'op': 'plant', 'name': k, 'as': a}, {**o2, 'key': k}, {**o3, 'key': k}] + post,
+                     st.sampled_from(['k1', 'newkey', 'k2', 'K-9_x']), st.sampled_from(['lnk_out_dir', 'lnk_abs', 'lnk_out_file', 'lnk_nested', 'lnk_self', 'lnk_dangling']),
+                     first, again, again, st.lists(op(), max_size=1), st.lists(op(), max_size=1), st.lists(op(), max_size=1))
+
+
 def case():
-    return st.builds(lambda lay, ops: {'layout': lay, 'ops': ops}, layout(), st.lists(op(), min_size=1, max_size=6))
+    return st.builds(lambda lay, ops: {'layout': lay, 'ops': ops}, layout(),
+                     st.one_of(st.lists(op(), min_size=1, max_size=6), st.lists(op(), min_size=1, max_size=6), st.lists(op(), min_size=1, max_size=6), replant_ops()))
 
 
 def plan(tier: str) -> list[dict]:
